@@ -4,8 +4,7 @@
    Panic sites: 30 signals[..] out of range, 31 default_value().unwrap() on a signal
    without default, 32 stmt_entries[..] out of range, 33 unreachable!() entry kind on the
    input path, 34 changed[..] out of range, 35 unreachable!() entry kind on the expected
-   path, 36 expand_x on an empty cache, 37 expand_c on an empty cache, 38 outputs[..] out
-   of range in extract_output_values, 39 entries[..] out of range in expand_c. *)
+   path, 36 expand_x on an empty cache, 37 expand_c on an empty cache, 38 (removed by the fix d850e2a: outputs.get(..)), 39 entries[..] out of range in expand_c. *)
 From DTR Require Import Prelude I64 Ast FramedMap Parser Bind Eval Stmt.
 Open Scope Z_scope.
 
@@ -358,8 +357,9 @@ Fixpoint extract_loop (pairs : list (entry_index * out_index)) (outs : list out_
         | OIOutput n =>
             match get_signal (ei_signal_index expected_index) with
             | Ok expected_signal =>
+                (* outputs.get(n): an answer shorter than the first one is a layout error *)
                 match nth_error outs n with
-                | None => (c, Panic 38%N)
+                | None => (c, Err RT_WrongOutputOrder)
                 | Some o => if signal_eqb expected_signal (oe_sig o) then (c, Ok (oe_val o))
                             else (c, Err RT_WrongOutputOrder)
                 end
